@@ -22,6 +22,7 @@ type Clause struct {
 type ModLoc struct {
 	All      bool
 	Contents bool // x[..] : the elements of slice x
+	Cap      bool // x[..cap] : the whole capacity window
 	E        Expr
 	Text     string
 	Ghost    string
@@ -301,6 +302,13 @@ func (cs *Contracts) loadFile(path string) error {
 					cur.Modifies = append(cur.Modifies, ModLoc{All: true, Text: part})
 				case strings.HasPrefix(part, "ghost "):
 					cur.Modifies = append(cur.Modifies, ModLoc{Ghost: strings.TrimSpace(part[6:]), Text: part})
+				case strings.HasSuffix(part, "[..cap]"):
+					// the whole capacity window of the slice (an in-place append writes beyond len)
+					e, err := parseExpr(part[:len(part)-7])
+					if err != nil {
+						return fail(err)
+					}
+					cur.Modifies = append(cur.Modifies, ModLoc{Contents: true, Cap: true, E: e, Text: part})
 				case strings.HasSuffix(part, "[..]"):
 					e, err := parseExpr(part[:len(part)-4])
 					if err != nil {
